@@ -131,8 +131,8 @@ PROPS = {
     "C14": dict(
         props_module="Ucan.Props.C14",
         streams=["selparse", "polipld"],
-        technique="Lean 4 proofs: the tokenizer partitions its input (induction over the byte list with the loop state generalised), every accepted selector is the concatenation of tokens each classified into one segment keeping its text, unterminated quotes are rejected, and FromIPLD∘ToIPLD is the identity up to selector re-printing (mutual structural induction over the statement tree); tied by exhaustive parsing of all strings ≤ N over the 11 syntax characters and by policy-node round trips incl. DAG-JSON",
-        level_text="C14_tokenize_partition, C14_nothing_dropped (parse s = ok sel ⇒ ∃ tokens, concat = s ∧ each segment classified from its token and storing its text — identity segments as \".\"), C14_unterminated_rejected, C14_policy_roundtrip (fromIPLD n = ok p ⇒ toIPLD p = n with every selector string replaced by what the parser prints for it), C14_decoded_ints_bounded. Go's selector.Parse is compared (accept/reject, every segment's fields, printed text) with the model on \".\" + every string of length ≤ 4 (6 thorough) over . [ ] \" ? : - 0 1 a \\ plus special and mutated selectors; policy.FromIPLD/ToIPLD and FromDagJson on well-formed and malformed policy nodes.",
+        technique="Lean 4 proofs: the tokenizer partitions its input (induction over the byte list with the loop state generalised), every accepted selector is the concatenation of tokens each classified into one segment keeping its text, unterminated quotes are rejected, the printed text of an accepted selector parses to the very same selector (the tokenizer is characterised by a quote-state scan; well-formed tokens concatenated re-tokenize to themselves), and FromIPLD∘ToIPLD is the identity up to selector re-printing (mutual structural induction over the statement tree); tied by exhaustive parsing of all strings ≤ N over the 11 syntax characters and by policy-node round trips incl. DAG-JSON",
+        level_text="C14_tokenize_partition, C14_nothing_dropped (parse s = ok sel ⇒ ∃ tokens, concat = s ∧ each segment classified from its token and storing its text — identity segments as \".\"), C14_unterminated_rejected, C14_print_reparse (parse s = ok sel ⇒ parse (print sel) = ok sel: same segments, same stored text), C14_policy_roundtrip (fromIPLD n = ok p ⇒ toIPLD p = n with every selector string replaced by what the parser prints for it), C14_decoded_ints_bounded. Go's selector.Parse is compared (accept/reject, every segment's fields, printed text) with the model on \".\" + every string of length ≤ 4 (6 thorough) over . [ ] \" ? : - 0 1 a \\ plus special and mutated selectors; policy.FromIPLD/ToIPLD and FromDagJson on well-formed and malformed policy nodes.",
         level_note="Trusted: Lean kernel; Model/SelectorParse.lean (hand-written recognisers for the three regular expressions, strconv range rules) and Model/PolicyIpld.lean render parsing.go / ipld.go by hand, checked differentially; \\p{L} is a parameter instantiated with Go's unicode.IsLetter; operator strings are regenerated facts. Partial with respect to the English statement: 'print then re-parse gives the same meaning' is covered by the differential stream (printed text compared) and by C14_nothing_dropped, the idempotence theorem parse (print sel) = ok sel is not yet proved.",
         assumptions=["dagjson.Decode (go-ipld-prime) is outside the model: the DAG-JSON path is compared on the node as it reads back from its own JSON text"],
     ),
